@@ -13,6 +13,7 @@ from collections import Counter
 import common  # noqa: F401
 from props import c13_fix as F
 from props import c13_modstate as M
+from props import c13_rows as R
 from props import c13_sched as S
 from props import c13_trace as T
 
@@ -22,12 +23,16 @@ FUNCTION = re.compile(r"([^(]*)\((.*)\)")
 
 
 # ---- spec / request -> model line ---------------------------------------------------------------
-def node_sexp(v):
+def node_sexp(v, tops=None):
     k = v[0]
     if k == "base":
         return "(b %s %d)" % (v[1], 1 if v[3] else 0)
+    if k == "view":
+        return "(b %s 1)" % v[1]
+    if k == "alias":        # the same object a second time: for the copy stage (which clones per container) one more node
+        return node_sexp(tops[v[2]], tops)
     if k == "struct":
-        return "(c s %s (%s))" % (v[1], " ".join(node_sexp(c) for c in v[3]))
+        return "(c s %s (%s))" % (v[1], " ".join(node_sexp(c, tops) for c in v[3]))
     if k == "grid":
         return "(c g %s (%s))" % (v[1], " ".join(["(b %s 1)" % v[1]] + ["(b %s 1)" % d for d, _ in v[4]]))
     if k in ("seq", "lseq"):
@@ -36,7 +41,8 @@ def node_sexp(v):
 
 
 def spec_sexp(spec):
-    return "(c d %s (%s))" % (spec["name"], " ".join(node_sexp(v) for v in spec["vars"]))
+    tops = {v[1]: v for v in spec["vars"]}
+    return "(c d %s (%s))" % (spec["name"], " ".join(node_sexp(v, tops) for v in spec["vars"]))
 
 
 def seq_ids(spec):
@@ -106,16 +112,33 @@ def served(ctx, spec, url, before):
     return after
 
 
+_FLIP = [0]
+
+
+def flip():
+    """the served arrays are read-only in every other case: a frozen array turns an in-place write into an error the
+    oracles see (compared with the answer of a fresh, WRITEABLE application), a writeable one lets the write happen so
+    that the snapshot sees it even when the code catches and ignores the error a read-only array would raise"""
+    _FLIP[0] += 1
+    return _FLIP[0] % 2 == 0
+
+
 def traced_case(ctx, spec, url, kind, cases, tid=7):
     prev = list(_RECENT[-3:])
     _RECENT.append([spec, url])
-    app, handler, ds = F.make_app(spec)
+    frozen = flip()
+    app, handler, ds = F.make_app(spec, frozen)
     T.share(ds)
     snap = F.snapshot(ds)
     mod = M.snapshot_all()
     out, tr = T.traced_call(app, url, "t%d" % tid, F.call)
     served(ctx, spec, url, mod)
-    case = {"oracle": "ownership", "spec": spec, "url": url}
+    case = {"oracle": "ownership", "spec": spec, "url": url, "frozen": frozen}
+    exp = F.call(F.make_app(spec, False)[0], url)
+    if out != exp:
+        ctx.oracle_fail("traced request on %s served arrays answered differently from a fresh writeable application"
+                        % ("read-only" if frozen else "writeable"), case, F.show(out), F.show(exp),
+                        size=len(repr(spec)) + len(url))
     if tr.foreign:
         leaked = any(f[3] != T.SHARED for f in tr.foreign)   # object of an *earlier request*: replay needs those too
         if leaked:
@@ -134,7 +157,7 @@ def traced_case(ctx, spec, url, kind, cases, tid=7):
     # lazy sequences: the IterData data object clones its template and keeps filter/map/slice lists of its own
     # (all allocated by the request, checked above); those internals are outside the model, so such datasets take
     # part in the ownership, module-state, history and schedule oracles but not in the write-log correspondence
-    if line is not None and not any(v[0] == "lseq" for _, v in F.leaves(spec)):
+    if line is not None and not any(F.is_lazy(v) for _, v in F.leaves(spec)):
         cases.append(("hs-log %d %s %s" % (tid, spec_sexp(spec), line), summary(tr.events),
                       {"url": url, "spec": spec}))
         cases.append(("hs-audit %d %s %s" % (tid, spec_sexp(spec), line), None, {"url": url, "audit": True}))
@@ -158,52 +181,68 @@ def run_correspondence(ctx, cases):
 
 
 # ---- oracle (a): histories ------------------------------------------------------------------------
+_EXPECTED = {}
+
+
+def expected(spec, url):
+    """the answer of a fresh, writeable application to `url` alone.  For the fixed datasets it is computed once per
+    process (on a fresh application) and kept; the replay computes it anew."""
+    if not any(spec is s for s in (F.FIXED_SPEC, F.LAZY_SPEC, F.NEST_SPEC, F.SHARED_SPEC, F.CSV_SPEC)):
+        return F.call(F.make_app(spec, False)[0], url)
+    key = (spec["attrs"]["title"], url)
+    if key not in _EXPECTED:
+        _EXPECTED[key] = F.call(F.make_app(spec, False)[0], url)
+    return _EXPECTED[key]
+
+
 def history_case(ctx, spec, urls, where):
-    app, handler, ds = F.make_app(spec)
+    frozen = flip()
+    app, handler, ds = F.make_app(spec, frozen)
     snap = F.snapshot(ds)
     mod = M.snapshot_all()
     for i, url in enumerate(urls):
         got = F.call(app, url)
         mod = served(ctx, spec, url, mod)
-        fresh_app, _, _ = F.make_app(spec)
-        exp = F.call(fresh_app, url)
+        exp = expected(spec, url)
+        case = {"oracle": "history", "spec": spec, "urls": urls[:i + 1], "frozen": frozen}
         if got != exp:
-            ctx.oracle_fail("response depends on the requests served before it",
-                            {"oracle": "history", "spec": spec, "urls": urls[:i + 1]}, F.show(got), F.show(exp),
-                            size=len(repr(spec)) + 50 * (i + 1))
+            ctx.oracle_fail("response depends on the requests served before it" if i or not frozen else
+                            "response of an application whose arrays are read-only differs from a writeable one",
+                            case, F.show(got), F.show(exp), size=len(repr(spec)) + 50 * (i + 1))
             break
         if F.snapshot(ds) != snap:
-            ctx.oracle_fail("served dataset changed by a history of requests",
-                            {"oracle": "history", "spec": spec, "urls": urls[:i + 1]}, "snapshot differs", "unchanged",
+            ctx.oracle_fail("served dataset changed by a history of requests", case, "snapshot differs", "unchanged",
                             size=len(repr(spec)) + 50 * (i + 1))
             break
     ctx.count(("hist", repr(spec), tuple(urls)), len(urls) > 1, tag="%s:len=%d" % (where, len(urls)),
               sample={"history": urls[:4]})
 
 
-def history_replay(spec, urls):
-    app, handler, ds = F.make_app(spec)
+def history_replay(spec, urls, frozen=True):
+    app, handler, ds = F.make_app(spec, frozen)
     snap = F.snapshot(ds)
     for url in urls:
         got = F.call(app, url)
-        exp = F.call(F.make_app(spec)[0], url)
+        exp = F.call(F.make_app(spec, False)[0], url)
         if got != exp:
             print("history: %s after %d earlier requests -> %s, fresh application -> %s"
                   % (url, len(urls) - 1, F.show(got), F.show(exp)))
             return False
         if F.snapshot(ds) != snap:
             print("history: served dataset changed after %s" % url)
+            for line in F.snapshot_diff(snap, F.snapshot(ds)):
+                print("  " + line)
             return False
     return True
 
 
-def shrink_history(spec, urls):
+def shrink_history(spec, urls, frozen=True):
     """drop requests while the history still fails"""
     urls = list(urls)
     i = 0
     while i < len(urls) - 1:
         cand = urls[:i] + urls[i + 1:]
-        if not _quiet(history_replay, spec, cand):
+        if not _quiet(history_replay, spec, cand, frozen):
             urls = cand
         else:
             i += 1
@@ -235,6 +274,18 @@ def explore(ctx, tier, search=False):
         traced_case(ctx, F.FIXED_SPEC, url, "fixed", cases)
     for url in F.LAZY_REQUESTS:
         traced_case(ctx, F.LAZY_SPEC, url, "lazy", cases)
+    # nested lazy sequences whose source holds the records as tuples / lists / lists of lists / numpy records, and the
+    # dataset of aliased objects (views of one buffer, maps shared by two grids, one object in two containers, array-
+    # valued attributes): each request on read-only AND on writeable served arrays
+    for url in F.NEST_REQUESTS:
+        traced_case(ctx, F.NEST_SPEC, url, "nested", cases)
+    for url in F.SHARED_REQUESTS:
+        traced_case(ctx, F.SHARED_SPEC, url, "shared", cases)
+        traced_case(ctx, F.SHARED_SPEC, url, "shared", cases)
+    # the CSV handler (file-backed lazy sequence: the stream is re-opened per iteration, csv.reader yields lists)
+    csv_bytes = open(F.csv_path(F.CSV_SPEC), "rb").read()
+    for url in F.CSV_REQUESTS:
+        traced_case(ctx, F.CSV_SPEC, url, "csv", cases)
     n_specs = 36 if search else 12 if tier == "quick" else 120
     specs = [F.rand_spec(rng) for _ in range(n_specs)]
     for spec in specs:
@@ -243,6 +294,12 @@ def explore(ctx, tier, search=False):
             traced_case(ctx, spec, url, kind, cases, tid=rng.randint(0, 9))
     run_correspondence(ctx, cases)
     mark("traced requests + correspondence")
+    # the maps of a served nested lazy sequence over its source records, object by object (PydapModel/RowHeap.lean):
+    # outcome, "no source object changed" and the list of stores, against the real IterData / build_filter / fix_nested
+    # on records held as tuples, lists and numpy records
+    ctx.correspond("maps over the source records of a lazy sequence (outcome; source unchanged; stores)",
+                   R.run(ctx, rng, 1200 if search else 400 if tier == "quick" else 4000))
+    mark("source-record maps")
     # (a) histories
     order = list(F.FIXED_REQUESTS)
     history_case(ctx, F.FIXED_SPEC, order, "fixed-all")
@@ -268,6 +325,36 @@ def explore(ctx, tier, search=False):
         urls = [rng.choice(lazy) for _ in range(rng.randint(3, 10))]
         urls += [urls[0], rng.choice(urls)]
         history_case(ctx, F.LAZY_SPEC, urls, "lazy")
+    # nested lazy sequences: every request three times in a row; the whole list twice; an inner selection between two
+    # identical other requests (the filter map of a nested selection runs on the FIRST SOURCE RECORD when the types
+    # are looked up); random histories with repeats
+    nest = list(F.NEST_REQUESTS)
+    history_case(ctx, F.NEST_SPEC, nest + nest, "nested-all-twice")
+    for url in nest:
+        if tier != "quick" or search or re.search(r"(<=|>=|!=|<|>|=)", url.partition("?")[2]):
+            history_case(ctx, F.NEST_SPEC, [url, url], "nested-twice")
+    inner = [u for u in nest if re.search(r"\.m\w+\.\w+(<=|>=|!=|<|>|=)", u)]
+    for _ in range(12 if tier == "quick" else 120):
+        urls = [rng.choice(nest) for _ in range(rng.randint(1, 6))]
+        a = rng.choice(nest)
+        urls = [a] + urls[:len(urls) // 2] + [rng.choice(inner)] + urls[len(urls) // 2:] + [a]
+        history_case(ctx, F.NEST_SPEC, urls, "nested")
+    sh = list(F.SHARED_REQUESTS)
+    history_case(ctx, F.SHARED_SPEC, sh + sh, "shared-all-twice")
+    history_case(ctx, F.SHARED_SPEC, sh[::-1] + sh, "shared-all-twice")
+    for _ in range(8 if tier == "quick" else 80):
+        urls = [rng.choice(sh) for _ in range(rng.randint(2, 9))]
+        history_case(ctx, F.SHARED_SPEC, urls + [urls[0]], "shared")
+    cs = list(F.CSV_REQUESTS)
+    history_case(ctx, F.CSV_SPEC, cs + cs[::-1], "csv-all-twice")
+    for url in cs:
+        history_case(ctx, F.CSV_SPEC, [url, url], "csv-twice")
+    for _ in range(6 if tier == "quick" else 60):
+        urls = [rng.choice(cs) for _ in range(rng.randint(2, 9))]
+        history_case(ctx, F.CSV_SPEC, urls + [urls[0]], "csv")
+    if open(F.csv_path(F.CSV_SPEC), "rb").read() != csv_bytes:
+        ctx.oracle_fail("the file behind the CSV handler changed while requests were served",
+                        {"oracle": "history", "spec": F.CSV_SPEC, "urls": cs, "frozen": False}, "file differs", "unchanged")
     for spec in specs:
         for _ in range(3 if tier == "quick" else 8):
             urls = [F.rand_request(rng, spec)[0] for _ in range(rng.randint(2, 12))]
@@ -336,7 +423,12 @@ def confirm_failures(ctx, limit=6):
 def run(ctx):
     ctx.rule = ("requests = all response kinds x {no CE, projections incl. shorthand, hyperslabs, selections, "
                 "server-side functions, malformed} over a fixed 8-variable dataset and seeded random datasets "
-                "(arrays of 7 dtypes and rank 0-3, structures to depth 2, grids, sequences); a traced request is "
+                "(arrays of 7 dtypes and rank 0-3, structures to depth 2, grids, sequences, lazy and nested lazy sequences "
+                "whose source holds tuples / lists / lists of lists / numpy records), a dataset of aliased objects (views "
+                "of one buffer, shared grid maps, one object in two containers, array/list/dict attribute values), a CSV "
+                "file behind CSVHandler; served arrays read-only in every other case; source-record cases = generated "
+                "object heaps x clauses x type lookups (non-trivial when the stream is not empty and the maps return); "
+                "a traced request is "
                 "non-trivial when it is answered 200; a history when it has >= 2 requests; a schedule when it has "
                 ">= 1 preemption; distinct by (dataset, request list, schedule)")
     ctx.assumptions = [
@@ -350,6 +442,10 @@ def run(ctx):
         "subclasses; responses under tracing are compared with untraced ones on every case",
         "C13: malformed requests and the response/ssf-eval stages are covered by the ownership oracle and the "
         "history/schedule oracles, not by the write-log correspondence",
+        "C13: of a lazy data object the model covers filters and maps over the source records (nested filter, "
+        "fix_nested, child selection, type peek, iteration); record ranges, deep_map at level 2 and array_dtype are "
+        "covered by the oracles only; a store into a list the code allocated itself is not observed (only source "
+        "objects are)",
     ]
     ctx.proof_phase()
     explore(ctx, ctx.tier)
@@ -369,20 +465,30 @@ def replay(payload):
         return False
     c = f["case"]
     if c["oracle"] == "history":
-        return history_replay(c["spec"], c["urls"])
+        return history_replay(c["spec"], c["urls"], c.get("frozen", True))
     if c["oracle"] == "ownership":
         T.install()
         for spec0, url0 in c.get("earlier", []):
             app0, _, ds0 = F.make_app(spec0)
             T.share(ds0)
             T.traced_call(app0, url0, "earlier", F.call)
-        app, handler, ds = F.make_app(c["spec"])
+        app, handler, ds = F.make_app(c["spec"], c.get("frozen", True))
         T.share(ds)
         snap = F.snapshot(ds)
         out, tr = T.traced_call(app, c["url"], "t0", F.call)
         if tr.foreign:
             print("foreign writes:", sorted(set(map(str, tr.foreign)))[:6])
-        return not tr.foreign and F.snapshot(ds) == snap
+        same = F.snapshot(ds) == snap
+        if not same:
+            print("served dataset changed by %s:" % c["url"])
+            for line in F.snapshot_diff(snap, F.snapshot(ds)):
+                print("  " + line)
+        exp = F.call(F.make_app(c["spec"], False)[0], c["url"])
+        if out != exp:
+            print("%s -> %s, fresh writeable application -> %s" % (c["url"], F.show(out), F.show(exp)))
+        return not tr.foreign and same and out == exp
     if c["oracle"] == "schedule":
         return S.replay_case(c)
+    if c["oracle"] == "rows":
+        return R.replay(c["rows"])
     raise ValueError(c["oracle"])
